@@ -265,3 +265,25 @@ def mutate(rng, f):
     if k < 0.93:
         b += bytes(rng.choice([1, 2, 3, 4, 5, 8])); return bytes(b), 'zero-pad'
     b += bytes(rng.getrandbits(8) for _ in range(rng.randrange(1, 16))); return bytes(b), 'garbage-tail'
+
+
+def mutate_chunk(rng, f):
+    """damage inside the first LZMA2 chunk of the first Block (headers and their CRCs stay valid): the LZMA data then
+    asks for more bytes than the chunk has, or ends early, or decodes to something else"""
+    b = bytearray(f)
+    try:
+        hs = (b[12] + 1) * 4; p = 12 + hs
+        if b[p] < 0x80: return mutate(rng, f)
+        start = p + (6 if b[p] >= 0xC0 else 5)
+        csize = ((b[p + 3] << 8) | b[p + 4]) + 1
+        k = rng.random()
+        if k < 0.5 and csize > 6:
+            i = start + rng.randrange(5, csize); b[i] ^= 1 << rng.randrange(8); return bytes(b), 'chunk-bitflip@%d' % i
+        if k < 0.75 and csize > 8:
+            d = rng.randrange(1, min(csize - 6, 12)); c = csize - 1 - d; b[p + 3] = c >> 8; b[p + 4] = c & 255; return bytes(b), 'chunk-csize-%d' % d
+        if k < 0.9:
+            u = (((b[p] & 0x1F) << 16) | (b[p + 1] << 8) | b[p + 2]) + rng.choice([1, 2, 300]); u &= 0x1FFFFF
+            b[p] = (b[p] & 0xE0) | (u >> 16); b[p + 1] = (u >> 8) & 255; b[p + 2] = u & 255; return bytes(b), 'chunk-usize+'
+        i = start + rng.randrange(1, max(2, csize)); del b[i:i + 1]; return bytes(b), 'chunk-delete@%d' % i
+    except Exception:
+        return mutate(rng, f)
